@@ -22,8 +22,9 @@ RULES = {
     'R8': 'a stored string argument is handed to snprintf with a plain s directive: every case of the decoder that appends a length-modifier character to the rebuilt directive (the cases that raise a length flag) first records where it starts, and the string case rewinds the directive to that position before the string is printed ("%ls" would make printf read the stored bytes as wide characters, past the record)',
     'R9': 'printing a dump uses a ring of its own: the name qb_rb_create_from_file gives to qb_rb_open is not a constant (it contains the process id), so that two printers at the same time do not meet in each other\'s files and leave one behind',
     'R7': 'the reader takes what the writer can store: the largest message length the printer accepts and the text buffer it decodes into are not below the largest max_line_length a target can be given (C13.R4), and the record buffer is not of a constant size (the function name in a record has no bound) but measured on the ring just opened, and that measure is only ever raised by a constant, not capped',
+    'R10': 'the writer of the records makes room with the margin the commit needs (= C11.R1): in overwrite mode the allocation loops on space_free < len + K with the K of normal mode and reclaims in the loop body',
 }
-FLOORS = {'R1': 9, 'R2': 12, 'R3': 2, 'R4': 9, 'R5': 7, 'R6': 12, 'R7': 4, 'R8': 4, 'R9': 1}
+FLOORS = {'R10': 3, 'R1': 9, 'R2': 12, 'R3': 2, 'R4': 9, 'R5': 7, 'R6': 12, 'R7': 4, 'R8': 4, 'R9': 1}
 
 
 def run(ctx):
@@ -36,6 +37,14 @@ def run(ctx):
     r7(ctx)
     r8(ctx)
     r9(ctx)
+    # R10 = C11.R1: a dump holds an unbroken run of records only if the writer made room for each one with the margin the commit
+    # needs - a chunk that overruns the read index destroys the oldest record's header and the printer finds nothing
+    from rules import c11
+    sub = type(ctx)(ctx.prog, ctx.prop, ctx.tier, ctx.depth)
+    c11.r1(sub)
+    for r in sub.results:
+        r['rule'] = 'R10'
+        ctx.results.append(r)
 
 
 def r1(ctx):
